@@ -55,8 +55,9 @@ def r1_static(repo: Repo, rep):
     for p in paths(fi.node):
         if p.ret is RAISE:
             continue
-        if p.ret is not None and dump(p.ret) == "self.created_points":
-            hits.append(p)
+        drew = any(isinstance(c, ast.Call) and dump(c.func) == "self.sampler.sample_points" for e in p.events if e.value is not None for c in ast.walk(e.value))
+        if not drew:
+            hits.append(p)  # nothing drawn: the call is served from the cache
         else:
             misses.append(p)
     if not hits or not misses:
@@ -84,8 +85,10 @@ def r1_static(repo: Repo, rep):
         step = _counter_form(upd) if upd is not None else 0
         rep.check(R, step == 1, fi.site(p.ret_node), fi.fq, "a hit advances the counter by exactly 1", f"counter after hit = {dump(upd)}", f"hit update {dump(upd)}")
         shape = (a, strict)
-        stores = [e for e in p.events if e.kind == "attr" and dump(e.target) == "self.created_points"]
-        rep.check(R, not stores, fi.site(p.ret_node), fi.fq, "a hit does not replace the cached points", f"{[dump(e.node) for e in stores]}", "cache replaced on hit")
+        moved = ("self.created_points", f"self.created_points.to({fi.params[2]})", f"self.created_points.to(device={fi.params[2]})") if len(fi.params) > 2 else ("self.created_points",)
+        stores = [e for e in p.events if e.kind == "attr" and dump(e.target) == "self.created_points" and dump(e.value) not in moved]
+        rep.check(R, not stores, fi.site(p.ret_node), fi.fq, "a hit does not replace the cached points (a device move aside)", f"{[dump(e.node) for e in stores]}", "cache replaced on hit")
+        rep.check(R, p.ret is not None and dump(p.ret) in moved, fi.site(p.ret_node), fi.fq, "a hit returns the cached points", dump(p.ret)[:80], f"hit returns {dump(p.ret)[:60]}")
     # ---- miss paths: reset r, draw, store, return
     for p in misses:
         upd = p.env.get("self.counter")
